@@ -135,6 +135,13 @@ def build(recipe):
         elif op == 'con':
             F.add_constraint([tuple(t) for t in st[1]] + [st[2], st[3]])
             grow(max([abs(t[1]) for t in st[1]] or [0]))
+        elif op == 'con-lists':
+            # the (coefficient, literal) pairs given as two-element lists
+            F.add_constraint([list(t) for t in st[1]] + [st[2], st[3]])
+            grow(max([abs(t[1]) for t in st[1]] or [0]))
+        elif op == 'con-from':
+            F.add_constraints_from([[list(t) for t in c[0]] + [c[1], c[2]] for c in st[1]])
+            grow(max([abs(t[1]) for c in st[1] for t in c[0]] or [0]))
         elif op == 'var':
             if st[1] is None:
                 F.new_variable()
@@ -821,6 +828,18 @@ def history_recipes(tier):
     return out
 
 
+def pair_recipes():
+    out = []
+    for terms, rel, deg in [([[1, 1], [2, -2]], '>=', 2), ([[3, 1], [1, 2], [2, 3]], '==', 3),
+                            ([[1, -1]], '>=', 1), ([[0, 1], [2, 2]], '>=', 1), ([[2, 1], [2, -2]], '>=', 5)]:
+        out.append({'cls': 'OPB', 'tag': 'pairs-as-lists', 'steps': [['nv', 3], ['con-lists', terms, rel, deg]]})
+        out.append({'cls': 'OPB', 'tag': 'pairs-as-lists',
+                    'steps': [['nv', 3], ['con', terms, rel, deg], ['con-lists', terms, rel, deg]]})
+    out.append({'cls': 'OPB', 'tag': 'pairs-as-lists',
+                'steps': [['con-from', [[[[1, 1], [2, -2]], '>=', 2], [[[1, 3]], '==', 1]]]]})
+    return out
+
+
 def header_recipes():
     out = []
     body = [['nv', 3], ['cl', [1, -2]], ['cl', [-3]]]
@@ -878,6 +897,7 @@ def shards(tier, seed):
         out.append(('long-%02d' % k, 'run_catalogue', {'what': 'long', 'k': k, 'K': 12, 'seed': seed}))
     out.append(('misc', 'run_catalogue', {'what': 'misc', 'k': 0, 'K': 1, 'seed': seed}))
     out.append(('header', 'run_catalogue', {'what': 'header', 'k': 0, 'K': 1, 'seed': seed}))
+    out.append(('pairs', 'run_catalogue', {'what': 'pairs', 'k': 0, 'K': 1, 'seed': seed}))
     for k in range(4):
         out.append(('history-%d' % k, 'run_catalogue', {'what': 'history', 'k': k, 'K': 4, 'tier': tier}))
     out.append(('format-CNF', 'run_formats', {'cls': 'CNF'}))
@@ -958,6 +978,8 @@ def run_catalogue(args, R):
         recs = misc_recipes(args.get('seed', 0))
     elif what == 'history':
         recs = history_recipes(args.get('tier', 'quick'))
+    elif what == 'pairs':
+        recs = pair_recipes()
     else:
         recs = header_recipes()
     recs = [r for i, r in enumerate(recs) if i % args['K'] == args['k']]
